@@ -643,6 +643,29 @@ def replay(rec):
             w, bad = _native_case(case, hs)
             if bad:
                 return {"reproduced": True, "detail": bad + (["component hash order %s" % (hs,)] if hs else []), "signature": rec["label"]}
+        # plain functions once more on perturbed heap layouts (their set order follows their addresses; where the evaluated order comes from
+        # the group registry the chosen hashes above do not steer it)
+        junk = []
+        for attempt in range(12):
+            junk.append([object() for _ in range(attempt * 5 + 1)])
+            fns = [(lambda k: (lambda: k))(k) for k in range(attempt + 1)]
+            junk.append(fns)
+            w, bad = _native_case(case, None)
+            if bad:
+                return {"reproduced": True, "detail": bad + ["plain function components, heap layout attempt %d" % attempt], "signature": rec["label"]}
+        # and in pristine child interpreters under other hash seeds (names and other hashed keys take part in some orders)
+        import json as _json
+        import subprocess as _sp
+        import sys as _sys
+        here = os.path.dirname(os.path.dirname(os.path.abspath(__file__)))
+        code = ("import json, sys, os, logging\nlogging.disable(logging.CRITICAL)\nsys.path.insert(0, %r); sys.path.insert(1, %r)\nos.environ['SYMX_NATIVE'] = '1'\n"
+                "from props import C01\nw, bad = C01._native_case(json.loads(sys.argv[1]), None)\nprint('RESULT ' + json.dumps(bad))\n") % (here, os.environ.get("VERIF_REPO", "/repo"))
+        for seed in range(1, 9):
+            env = dict(os.environ, PYTHONHASHSEED=str(seed), SYMX_NATIVE="1")
+            p = _sp.run([_sys.executable, "-c", code, _json.dumps(case)], capture_output=True, text=True, env=env, timeout=300)
+            out = [l for l in p.stdout.splitlines() if l.startswith("RESULT ")]
+            if out and _json.loads(out[-1][7:]):
+                return {"reproduced": True, "detail": _json.loads(out[-1][7:]) + ["pristine interpreter, PYTHONHASHSEED=%d" % seed], "signature": rec["label"]}
         return {"reproduced": False, "detail": "oracle satisfied natively under every component hash order"}
     if kind == "toposort":
         import itertools
